@@ -61,6 +61,16 @@ def build_real(prog, log):
             k = spec[0]
             if k == "map":
                 n = u[0].map(FUNCS[spec[1]])
+            elif k == "mapargs":
+                n = u[0].map(FUNCS["addk"], 5, k=10)
+            elif k == "starmapkw":
+                n = u[0].starmap(FUNCS["add3"], c=100)
+            elif k == "filterargs":
+                n = u[0].filter(FUNCS["gtk"], 1, hi=2)
+            elif k == "accws":
+                n = u[0].accumulate(FUNCS["accw"], start=0, w=2, with_state=True)
+            elif k == "pkey":
+                n = u[0].partition(2, key=0)
             elif k == "starmap":
                 n = u[0].starmap(FUNCS[spec[1]])
             elif k == "filter":
@@ -317,7 +327,7 @@ class _Run:
         """the most downstream stateful node the element has entered"""
         best = None
         for item in self.prog:
-            if item[0] == "node" and item[2][0] in ("partition", "punique", "sw", "collect", "zip", "cl", "zl", "unique", "filter", "slice", "flatten"):
+            if item[0] == "node" and item[2][0] in ("partition", "pkey", "punique", "sw", "collect", "zip", "cl", "zl", "unique", "filter", "slice", "flatten"):
                 best = item[1]
         return best
 
